@@ -113,6 +113,15 @@ FEW = (0x00, 0x01, 0x02, 0x62, 0xB5, 0x7F, 0x80, 0xFE, 0xFF)
 
 
 def replay_case(case):
+    if case["kind"] == "extreme":
+        n, k, d = case["n"], case["k"], case["d"]
+        pl = bytearray((i * 7) % 256 for i in range(n))
+        frame = ref.frame(0x04, 0x02, bytes(pl))
+        x = bytearray(frame)
+        x[-2 - k] = (x[-2 - k] + d) % 256
+        if case["paired"]:
+            x[-3 - k] = (x[-3 - k] - d) % 256
+        return [(a + "|max_length_frame", b) for a, b in judge(bytes(x), 0)[2]]
     if case["kind"] == "fault":
         return judge(bytes.fromhex(case["x"]), case.get("mode", 0))[2]
     return judge_valnone(bytes.fromhex(case["frame"]), bytes.fromhex(case["ck"]), case["mode"])[1]
@@ -191,6 +200,24 @@ def eval_block(block, acc):
                         acc.extra["fault_result_wellformed"] += 1
                     for key, detail in out:
                         acc.violation(key, {"kind": "fault", "x": x.hex(), "mode": 0, "fault": "sub2", "family": t}, detail)
+    elif kind == "extreme":
+        # frames at the largest payload lengths: corruptions of the last bytes incl. ones that keep the first
+        # checksum byte unchanged (+1 / -1 on neighbouring bytes)
+        for n in (65531, 65532, 65533, 65534, 65535):
+            pl = bytearray((i * 7) % 256 for i in range(n))
+            frame = ref.frame(0x04, 0x02, bytes(pl))
+            for k in (1, 2, 3, 4):
+                for d in (1, 255, 0x80):
+                    x = bytearray(frame)
+                    x[-2 - k] = (x[-2 - k] + d) % 256
+                    x[-3 - k] = (x[-3 - k] - d) % 256  # sum preserved: only the second checksum byte can notice
+                    for xx in (bytes(x), bytes(frame[: -2 - k]) + bytes([(frame[-2 - k] + d) % 256]) + bytes(frame[-1 - k:])):
+                        wf, ret, out = judge(xx, 0)
+                        acc.evaluations += 1
+                        acc.transitions += 1
+                        acc.outcomes[("extreme", wf, ret.split(":")[0])] += 1
+                        for key, detail in out:
+                            acc.violation(key + "|max_length_frame", {"kind": "extreme", "n": n, "k": k, "d": d, "paired": xx == bytes(x)}, detail)
     elif kind == "zero":
         cls = block[1]
         for mid in range(256):
@@ -218,6 +245,7 @@ def run_tier(tier, t0):
     idx = list(range(len(ents)))
     blocks = [("entries", idx[i::64], q) for i in range(64)]
     blocks.append(("tokens", q))
+    blocks.append(("extreme", q))
     for t in ("U0", "Uack") if q else ("U0", "Uack", "Ucfg"):
         blocks += [("double", t, i, q) for i in range(len(streams.TOKENS[t][2]) - 1)]
     blocks += [("zero", cls, q) for cls in range(256)]
